@@ -225,13 +225,20 @@ func execRom(c romCase) (out []string, oracle string) {
 				before := append([]byte{}, contents...)
 				var n int
 				var err error
-				if o.vs%3 == 1 && len(p) > 0 {
+				rf, isRF := cs.wr.(io.ReaderFrom)
+				switch {
+				case o.vs%3 == 1 && len(p) > 0:
 					// the writer is an io.Writer: it is also driven through the standard library (io.Copy from a source
-					// without WriteTo performs exactly one Write here; an optional ReaderFrom on the writer is honoured)
+					// without WriteTo performs exactly one Write here — the copy buffer is as long as the data, also for data
+					// of 64 KiB and more; an optional ReaderFrom on the writer is honoured)
 					var n64 int64
-					n64, err = io.Copy(cs.wr, io.LimitReader(bytes.NewReader(p), int64(len(p))))
+					n64, err = io.CopyBuffer(cs.wr, io.LimitReader(bytes.NewReader(p), int64(len(p))), make([]byte, len(p)))
 					n = int(n64)
-				} else {
+				case o.vs%3 == 2 && isRF && len(p) > 0:
+					var n64 int64
+					n64, err = rf.ReadFrom(bytes.NewReader(p))
+					n = int(n64)
+				default:
 					n, err = cs.wr.Write(p)
 				}
 				out[i] = fmt.Sprintf("%x %s", n, errName(err))
@@ -300,6 +307,11 @@ func genRomCase(r *prng.R, rep *report.Report) romCase {
 	if tier == "thorough" && r.Chance(2) {
 		c.size = 0x400000
 	}
+	if r.Chance(35) {
+		// irregular image sizes: n*32 KiB +1, -1, +512, +511/513, +2^k, odd (only the whole banks are addressed)
+		c.size = uint32(irregularSize(r))
+		rep.Count("image size: irregular, " + sizeClass(int(c.size)))
+	}
 	banks := c.size >> 15
 	nobj := 1 + r.N(3)
 	for k := 0; k < nobj; k++ {
@@ -352,6 +364,12 @@ func genRomCase(r *prng.R, rep *report.Report) romCase {
 			}
 			if n > 70000 {
 				n = 70000
+			}
+			if r.Chance(3) {
+				// one huge read / write: a multiple of 64 KiB plus a little (nothing, a few bytes, what is left of the window -1 / 0 / +1):
+				// it can never fit, whatever the low 16 bits of its length say
+				n = uint32(1+r.N(3))<<16 + []uint32{0, 1, uint32(r.N(6)), uint32(max(0, remaining-2)), uint32(max(0, remaining-1)), uint32(remaining), uint32(r.N(remaining + 1))}[r.N(7)]
+				rep.Count("length of 64 KiB or more in one call")
 			}
 			if rw == 'r' {
 				c.ops = append(c.ops, romOp{kind: 'R', n: n})
@@ -557,6 +575,50 @@ func runRom() {
 			cases = append(cases, c)
 		}
 	}
+	// directed: irregular image sizes (a whole number of banks plus 1, 512, 511, 513, 2^k, odd, minus 1), every whole bank read to
+	// its end, written near its end and read back, on a ROM built by NewROM and on a literal
+	for _, sz := range []uint32{0x8001, 0x8200, 0x10200, 0x101FF, 0x18201, 0x17FFF, 0x14000, 0x10003, 0x28200} {
+		for _, viaNew := range []bool{true, false} {
+			c := romCase{size: sz, seed: 3}
+			if viaNew {
+				c.ops = append(c.ops, romOp{kind: 'N'})
+			}
+			for bank := uint32(0); bank < sz>>15; bank++ {
+				c.ops = append(c.ops, romOp{kind: 'O', rw: 'r', a: bank<<16 | 0x8000}, romOp{kind: 'R', n: 0x10}, romOp{kind: 'R', n: 0x9000}, romOp{kind: 'R', n: 1},
+					romOp{kind: 'O', rw: 'w', a: bank<<16 | 0xFFE0}, romOp{kind: 'W', n: 0x10, vs: 7 + bank}, romOp{kind: 'W', n: 0xF, vs: 3},
+					romOp{kind: 'O', rw: 'r', a: bank<<16 | 0xFFE0}, romOp{kind: 'R', n: 0x20})
+			}
+			c.ops = append(c.ops, romOp{kind: 'F'})
+			cases = append(cases, c)
+		}
+	}
+	// directed: one call with a length of 64 KiB or more (through Write, io.Copy and ReadFrom where offered), first or after
+	// accepted writes, with the low 16 bits of the length fitting / not fitting what is left of the window; then a write that fits
+	for _, left := range []uint32{1, 15, 0x101, 0x7FFF} {
+		for _, m := range []uint32{1, 2, 3} {
+			for _, k := range []uint32{0, 1, 4, left - 1, left, left + 1} {
+				for mode := uint32(0); mode < 3; mode++ {
+					a := uint32(0x010000) | (0xFFFF - left)
+					c := romCase{size: 0x18000, seed: 1}
+					if (m+k+mode)%2 == 0 {
+						c.ops = append(c.ops, romOp{kind: 'N'})
+					}
+					c.ops = append(c.ops, romOp{kind: 'O', rw: 'w', a: a})
+					first := uint32(0)
+					if k%2 == 1 && left > 4 {
+						first = 3
+						c.ops = append(c.ops, romOp{kind: 'W', n: first, vs: 30 + mode})
+					}
+					c.ops = append(c.ops, romOp{kind: 'W', n: m<<16 + k, vs: 3*(m+k) + mode})
+					if left-first >= 1 {
+						c.ops = append(c.ops, romOp{kind: 'W', n: 1, vs: 60 + mode})
+					}
+					c.ops = append(c.ops, romOp{kind: 'O', rw: 'r', a: a}, romOp{kind: 'R', n: m<<16 + k}, romOp{kind: 'R', n: 1}, romOp{kind: 'F'})
+					cases = append(cases, c)
+				}
+			}
+		}
+	}
 	for i := 0; i < n; i++ {
 		cases = append(cases, genRomCase(r.Fork(), rep))
 	}
@@ -611,7 +673,8 @@ func runRom() {
 	rep.Rule = "random reader/writer histories on images of 32 KiB..256 KiB (thorough: up to 4 MiB); three quarters of the ROM objects are built by NewROM over images whose header fields " +
 		"(ROM size byte below / equal / above the image size and at shift-width boundaries, map mode, RAM size, cartridge type, version markers, vectors, checksum) are set, wholly random or background, " +
 		"the image header bytes and the parsed Header are edited between operations; the oracle also demands that the reader reaches the end of the bank window and that a fitting write is stored; offsets below $8000, at $8000, within 6 bytes of the bank end; " +
-		"a third of the writes go through io.Copy; half of the histories interleave the operations of several live readers / writers of the same ROM; read/write lengths 0, remaining-1, remaining, remaining+1..3 and small; write-then-read-back; banks outside the image; whole image compared after every write. " +
+		"a third of the images have irregular sizes (n*32 KiB +1, -1, +512, +511/513, +2^k, odd; directed: every whole bank of such images read to its end, written and read back); one call in thirty has a length of 64 KiB or more (m*65536 + 0, a few, what is left of the window -1/0/+1; directed through Write, io.Copy and ReadFrom, first and after accepted writes, followed by a write that fits); " +
+		"a third of the writes go through io.Copy (one Write per call), a third through ReadFrom where the writer offers it; half of the histories interleave the operations of several live readers / writers of the same ROM; read/write lengths 0, remaining-1, remaining, remaining+1..3 and small; write-then-read-back; banks outside the image; whole image compared after every write. " +
 		"evaluations = operations; distinct_nontrivial = distinct (op kind, reply prefix) sequences"
 	rep.Emit()
 }
